@@ -8,6 +8,9 @@
 import ProphyModel.Cpp
 import ProphyModel.Lemmas.Scalars
 import ProphyModel.Properties.Tables
+import ProphyModel.Lemmas.CppRoundTrip
+import ProphyModel.Lemmas.CppEncode
+import ProphyModel.Lemmas.NoShift
 namespace Prophy.C03
 open Prophy Prophy.Cpp
 
@@ -38,5 +41,45 @@ theorem C03_scalar_compatible (e : Endian) (k n : Nat) (pre post : Bytes) (rs : 
 theorem C03_scalar_encode (e : Endian) (p : Prim) (i : Int) (pos : Nat) :
     encTy e (.prim p) (.int i) pos = written (scalarBytes e p.size (toUnsigned p.size i)) := by
   simp [encTy]
+
+/-- FULL STATEMENT, decode half: for every schema prophyc accepts, without shifted counters (prophyc
+    never emits one; the C++ generator has no notion of `shift=`) and without the D4 shape
+    (`optMisaligned`: known finding), every well-typed coherent value whose greedy tail ends aligned
+    and whose arrays stay below the decoder's resize limit (2^28 elements), in both byte orders:
+    the generated C++ decoder accepts the canonical encoding - what the Python codec writes, by C01 -
+    reads all of it, and holds exactly the value -/
+theorem C03_cpp_decodes_canonical (t : Ty) (v : Val) (e : Endian)
+    (hf : Accept.front t = true) (hns : Accept.noShift t = true) (hm : Cpp.optMisaligned t = false)
+    (hrz : Cpp.resizeOkTy t v = true)
+    (hv : hasType t v = true) (ha : WF.agreeTy t v = true) (hg : Spec.galTy t v = true) :
+    ∃ rs, Cpp.decode t (Spec.enc t v e) e = .accepted v rs :=
+  Cpp.decode_canonical t v e hf (Accept.pyRt_of_front t hf hns) hm (by rw [Cpp.noShift_eq_accept]; exact hns) hrz hv ha hg
+
+/-- FULL STATEMENT, encode half: `message::encode<E>()` of an object holding `v` returns exactly
+    the canonical encoding (the length bound is `size_t`) -/
+theorem C03_cpp_encodes_canonical (t : Ty) (v : Val) (e : Endian)
+    (hf : Accept.front t = true) (hns : Accept.noShift t = true) (hm : Cpp.optMisaligned t = false)
+    (hv : hasType t v = true) (ha : WF.agreeTy t v = true)
+    (hlen : (Spec.enc t v e).length < 2 ^ 64) :
+    Cpp.encodeVec t v e = .ok (Spec.enc t v e) :=
+  Cpp.encodeVec_canonical t v e hf (Accept.pyRt_of_front t hf hns) hm (by rw [Cpp.noShift_cppenc_eq_accept]; exact hns) hv ha hlen
+
+/-- wire compatibility both ways: C++ decodes the canonical bytes to `v`, and encoding the decoded
+    object returns the identical bytes, in the same or the other byte order; Python writes, C++ reads -/
+theorem C03_cpp_roundtrip (t : Ty) (v : Val) (e e' : Endian)
+    (hf : Accept.front t = true) (hns : Accept.noShift t = true) (hm : Cpp.optMisaligned t = false)
+    (hrz : Cpp.resizeOkTy t v = true)
+    (hv : hasType t v = true) (ha : WF.agreeTy t v = true) (hg : Spec.galTy t v = true)
+    (hlen : (Spec.enc t v e').length < 2 ^ 64) :
+    (∃ rs, Cpp.decode t (Spec.enc t v e) e = .accepted v rs) ∧ Cpp.encodeVec t v e' = .ok (Spec.enc t v e') ∧
+      Py.encode t v e = .ok (Spec.enc t v e) :=
+  ⟨C03_cpp_decodes_canonical t v e hf hns hm hrz hv ha hg, C03_cpp_encodes_canonical t v e' hf hns hm hv ha hlen,
+    Py.encode_canonical t v e (Accept.wf_of_accept t hf (Accept.pyRt_of_front t hf hns)) hv ha⟩
+
+/-- a shifted counter is not understood by the C++ codec (hand-written Python descriptors only) -/
+theorem C03_shift_not_portable :
+    ∃ (t : Ty) (v : Val) (e : Endian), Accept.front t = true ∧ Accept.pyRt t = true ∧ Cpp.optMisaligned t = false ∧
+      hasType t v = true ∧ WF.agreeTy t v = true ∧ Spec.galTy t v = true ∧
+      ¬ ∃ rs, Cpp.decode t (Spec.enc t v e) e = .accepted v rs := Cpp.decode_canonical_needs_noShift
 
 end Prophy.C03
